@@ -5,11 +5,14 @@ mod img;
 mod io;
 mod json;
 mod lock;
+mod misc;
 mod model;
 mod pl;
 mod scen;
 mod sys;
+mod trace;
 mod util;
+mod walimg;
 
 use json::J;
 use std::collections::HashMap;
@@ -274,6 +277,9 @@ fn main() {
         Some("conc") => conc::cmd_conc(&kv),
         Some("pl") => pl::cmd_pl(&kv),
         Some("img") => img::cmd_img(&kv),
+        Some("misc") => misc::cmd_misc(&kv),
+        Some("trace") => trace::cmd_trace(&kv),
+        Some("walimg") => walimg::cmd_walimg(&kv),
         Some("lockchild") => lock::lockchild_main(&pos[1], &pos[2], &pos[3], &pos[4], &pos[5]),
         Some("iochild") => io::child_main(&pos[1], &pos[2]),
         _ => {
